@@ -434,8 +434,18 @@ func c13CID(r *run.Run) {
 func c13Runs(r *run.Run) {
 	runLens := []int{1, 2, 255, 256, 257, 511, 512, 513, 768}
 	periods := []int{1, 2, 3, 4, 5, 8}
+	if !r.Quick() {
+		// every run length up to just beyond four full ranges, every period up to 16
+		runLens, periods = nil, nil
+		for n := 1; n <= 1030; n++ {
+			runLens = append(runLens, n)
+		}
+		for n := 1; n <= 16; n++ {
+			periods = append(periods, n)
+		}
+	}
 	r.Explore(explore.Config{Name: "C13.runs"},
-		"CID-keyed fonts with a run of {1,2,255,256,257,511,512,513,768} consecutive CIDs followed by isolated CIDs, or 1500 glyphs whose font dictionary changes every {1,2,3,4,5,8} glyphs (up to 1500 FDSelect ranges); simple fonts with such a run of custom glyph names followed by standard names: Read(Write(F)) == F, the independent reader sees the same charset / FDSelect",
+		"CID-keyed fonts with a run of {1,2,255,256,257,511,512,513,768} (quick) / every length 1..1030 (thorough) consecutive CIDs followed by isolated CIDs, or 1500 glyphs whose font dictionary changes every {1,2,3,4,5,8} glyphs (up to 1500 FDSelect ranges); simple fonts with such a run of custom glyph names followed by standard names: Read(Write(F)) == F, the independent reader sees the same charset / FDSelect",
 		func(c *explore.Ctx) {
 			family := c.Choose(3, "family")
 			var f *cff.Font
